@@ -57,7 +57,7 @@ def build_pkg(ctx, schema_name, schema_files, config_name, must=True):
     return Pkg(name, schema_name, config_name, out_rel, imp, b)
 
 
-def run_mode(ctx, pkg, mode, env=None, timeout=1800, mem_gb=6, what=None, max_restarts=12, fill_death_is_violation=False):
+def run_mode(ctx, pkg, mode, env=None, timeout=1800, mem_gb=6, what=None, max_restarts=12, fill_death_is_violation=False, reclass=None):
     """runs one harness mode in journaled children; a child death is attributed to the last journaled item,
     reported, and the run resumes without that item. Returns (counters, extra events)."""
     what = what or ("%s on %s/%s" % (mode, pkg.schema, pkg.config))
@@ -78,7 +78,12 @@ def run_mode(ctx, pkg, mode, env=None, timeout=1800, mem_gb=6, what=None, max_re
                 last = ev
             elif ev.get("t") not in ("violation", "summary", "note", "inconclusive"):
                 extra.append(ev)
-        inpkg.absorb(ctx, r, [ev for ev in events if ev.get("t") in ("violation", "note", "inconclusive")], what, expect_summary=False)
+        vevents = [ev for ev in events if ev.get("t") in ("violation", "note", "inconclusive")]
+        if reclass:
+            for ev in vevents:
+                if ev.get("t") == "violation":
+                    reclass(ev)
+        inpkg.absorb(ctx, r, vevents, what, expect_summary=False)
         if summaries:
             t = inpkg.merge_counters(ctx, summaries)
             for k, v in t.items():
@@ -119,8 +124,45 @@ def repo_packages(ctx, sets, configs, must=False):
     return pkgs
 
 
+def random_packages(ctx, n, label, config="tl2all"):
+    """n random SchemaGen schemas generated and built with the current tl2gen; returns [(Pkg, Schema)]"""
+    from . import schemagen
+    out = []
+    for i in range(n):
+        s = schemagen.generate(ctx.seed, "%s/%d" % (label, i))
+        name = "rnd_%s_%d" % (label, i)
+        path = os.path.join(ctx.work, name + ".tl")
+        open(path, "w").write(s.text())
+        p = build_pkg(ctx, name, [path], config, must=False)
+        c = ctx.cov.setdefault("counters", {})
+        c["random_schemas_generated"] = c.get("random_schemas_generated", 0) + 1
+        if p is None:
+            c["random_schemas_rejected_or_not_built"] = c.get("random_schemas_rejected_or_not_built", 0) + 1
+            continue
+        p.schema = "random:%s/%d" % (label, i)
+        out.append((p, s))
+    return out
+
+
+def sanity_reclass(schema):
+    """known finding F2 on random schemas: a length-sanity rejection is only 'known' for items whose AST has arrays of small elements"""
+    from . import schemagen
+    by_name = {}
+    for d in schema.decls:
+        for c in d.constructors:
+            by_name[c.lname] = d
+        by_name[d.uname] = d
+
+    def f(ev):
+        cl = ev.get("class", "")
+        d = by_name.get(ev.get("item", ""))
+        if d is not None and cl.endswith("length-sanity") and schemagen.has_small_element_arrays(d):
+            ev["class"] = cl + "-small-elements"
+    return f
+
+
 def simple_check(ctx, mode, rule, require, quick_values, thorough_values, configs_quick=("tl2all",), configs_thorough=("tl2all", "tl2all-nosanity", "split", "nobytes"),
-                 count_keys=("values",), env=None, fill_death_is_violation=False, sets_quick=None, mem_gb=6):
+                 count_keys=("values",), env=None, fill_death_is_violation=False, sets_quick=None, mem_gb=6, random_quick=0, random_thorough=0):
     thorough = ctx.tier == "thorough"
     ctx.make_scratch()
     sets = REPO_SETS_ALL if thorough else (sets_quick or REPO_SETS_QUICK)
@@ -133,6 +175,17 @@ def simple_check(ctx, mode, rule, require, quick_values, thorough_values, config
         t, _ = run_mode(ctx, p, mode, env=e, fill_death_is_violation=fill_death_is_violation, mem_gb=mem_gb)
         for k, v in t.items():
             tot[k] = tot.get(k, 0) + v
+    nrand = random_thorough if thorough else random_quick
+    rpk = random_packages(ctx, nrand, mode) if nrand else []
+    for p, sch in rpk:
+        t, _ = run_mode(ctx, p, mode, env=e, fill_death_is_violation=fill_death_is_violation, mem_gb=mem_gb, reclass=sanity_reclass(sch))
+        for k, v in t.items():
+            tot[k] = tot.get(k, 0) + v
+            tot["random_" + k] = tot.get("random_" + k, 0) + v
+    if nrand:
+        rule += " Plus %d random SchemaGen schemas (structs, masks, nat-sized arrays, unions, templates, recursion...) generated and built per run." % nrand
+        ctx.cov.setdefault("counters", {})["random_schemas_exercised"] = len(rpk)
+        ctx.require("random schemas exercised", len(rpk), max(1, nrand // 2))
     ctx.cov["rule"] = rule
     ctx.count(sum(tot.get(k, 0) for k in count_keys))
     for label, key, need in require:
